@@ -1900,3 +1900,69 @@ func (c *Ctx) rulesR3batch3(only string) {
 		}
 	}
 }
+
+func (c *Ctx) rulesR3flush() {
+	c.rule("C06.flushed", "a Subscriptions method that closes the channels of a slice-typed binding index while ranging over it (whenQueue, whenQueueEnds, whenQuery) also empties that index in the same function: a binding that stays listed after its channel was closed is collected again by the next Process* call and closed a second time (plain close panics in the caller's goroutine)")
+	sub := c.namedType(pm, "Subscriptions")
+	if sub == nil {
+		return
+	}
+	st := sub.Underlying().(*types.Struct)
+	n := 0
+	for _, f := range c.Funcs {
+		recv := f.Signature.Recv()
+		if recv == nil || f.Parent() != nil || namedOf(recv.Type()) == nil || namedOf(recv.Type()).Obj() != sub.Obj() {
+			continue
+		}
+		if f.Name() == "dispose" {
+			continue // terminal: nothing registers after it, and Machine closes collected channels with closeSafe
+		}
+		for i := 0; i < st.NumFields(); i++ {
+			fld := st.Field(i)
+			if _, ok := fld.Type().Underlying().(*types.Slice); !ok || !ownsWaiter(fld.Type(), 0) {
+				continue
+			}
+			// closes an element's channel: close/closeSafe(arg) where arg derives from an element of fld
+			closes := false
+			var pos token.Pos
+			for _, b := range f.Blocks {
+				for _, ins := range b.Instrs {
+					call, ok := ins.(*ssa.Call)
+					if !ok {
+						continue
+					}
+					isClose := calleeName(&call.Call) == "closeSafe"
+					if bi, ok := call.Call.Value.(*ssa.Builtin); ok && bi.Name() == "close" {
+						isClose = true
+					}
+					if !isClose || len(call.Call.Args) != 1 {
+						continue
+					}
+					fromIdx := false
+					valueTree(call.Call.Args[0], 8, func(x ssa.Value) {
+						if ia, ok := x.(*ssa.IndexAddr); ok && loadOfField(ia.X) == fld {
+							fromIdx = true
+						}
+					})
+					if fromIdx {
+						closes, pos = true, call.Pos()
+					}
+				}
+			}
+			if !closes {
+				continue
+			}
+			n++
+			reset := false
+			for _, w := range writesOfFieldIn(f, fld) {
+				if w.Kind == "assign" {
+					reset = true
+				}
+			}
+			c.check(reset, "C06.flushed", funcKey(f)+" empties "+fld.Name()+" after closing its channels", pos, fld.Name()+" keeps bindings whose channels this function has closed")
+		}
+	}
+	if n < 2 {
+		c.undecided(fmt.Sprintf("C06.flushed: only %d close-while-ranging sites over slice-typed binding indexes", n))
+	}
+}
